@@ -941,6 +941,8 @@ impl ParserListener for Screen {
                 if y + count <= bottom {
                     if let Some(line) = self.buffer.remove(&(y + count)) {
                         self.buffer.insert(y, line);
+                    } else {
+                        self.buffer.remove(&y);
                     }
                 } else {
                     self.buffer.remove(&y);
